@@ -295,6 +295,29 @@ def run_abort(desc):
                 break
             if nontrivial:
                 out.nontrivial(('raise', desc['tree'], desc['cfg'], j))
+        # ---- kill() from the very hook invocation that raises (directory hooks) --------------------------
+        for j in range(1, n + 1):
+            if log_full[j - 1][0] not in ('vd', 'cd'):
+                continue
+            w = new()
+            w.raise_at = j
+            w.kill_at = j
+            try:
+                got = w.match()
+            except Boom:
+                fail('exception from a directory hook escaped (kill in the same hook)', j=j)
+                break
+            out.evaluations += 1
+            later = [x[0] for x in w.log[j:]]
+            if later.count('vd') + later.count('cd') > 0 or later.count('match') + later.count('skip') > 1 or later.count('err') > 1:
+                fail('kill() from a raising directory hook: other directories are still validated / more than one file is finished',
+                     j=j, later=later[:8])
+                break
+            if not w.is_aborted():
+                fail('kill() from a raising directory hook: is_aborted() is False', j=j)
+                break
+            if nontrivial:
+                out.nontrivial(('raise+kill', desc['tree'], desc['cfg'], j))
         # ---- cross-thread kill released exactly at hook k ------------------------------------------
         for k in range(1, n + 1):
             w = new()
